@@ -18,7 +18,7 @@
 (* duplicates, 10.1.11.1 OrdinaryOwnPropertyKeys for the key order):       *)
 (*   numbers  by StringToNumber, restricted to a small exactly             *)
 (*            representable domain plus signed zero, overflow to           *)
-(*            +-Infinity and underflow to +-0; everything else is "out"    *)
+(*            +-Infinity (exact) and deep underflow to +-0; the rest "out" *)
 (*            (accepted, value not prescribed here - property C13);        *)
 (*   strings  are code-unit sequences (escapes decoded, lone surrogates    *)
 (*            and U+2028/2029 kept as they are);                           *)
@@ -128,12 +128,31 @@ RECURSIVE Pow(_, _)
 Pow(b, n) == IF n = 0 THEN 1 ELSE b * Pow(b, n - 1)
 
 (* StringToNumber (ECMA-262 7.1.4.1.1) on a JSON number.  With s the significant digits (no leading or  *)
-(* trailing zeros, d of them) and the value s * 10^q:                                                   *)
+(* trailing zeros, d of them) and the value 0.s * 10^(d+q):                                             *)
 (*   s empty                 -> +-0                                                                     *)
-(*   d + q > 310             -> value >= 10^309 > 2^1024: rounds to +-Infinity                           *)
-(*   d + q < -330            -> value < 10^-331 < 2^-1075: rounds to +-0                                 *)
+(*   value >= 2^1024 - 2^970 -> +-Infinity: that number is the midpoint between the largest double and  *)
+(*                              2^1024 and the tie goes to the even significand, i.e. up.  It has 309   *)
+(*                              digits (OverflowDigits), so the comparison is by magnitude d + q and    *)
+(*                              then digit by digit - exact, without big numbers                        *)
+(*   d + q < -330            -> value < 10^-330 < 2^-1075: rounds to +-0                                 *)
 (*   small and dyadic        -> exact rational num/den, den a power of two                              *)
 (*   otherwise               -> "out" (correct rounding is property C13's business)                     *)
+OverflowDigits ==
+  <<1, 7, 9, 7, 6, 9, 3, 1, 3, 4, 8, 6, 2, 3, 1, 5, 8, 0, 7, 9, 3, 7, 2, 8, 9, 7, 1, 4, 0, 5, 3, 0, 3, 4, 1, 5, 0, 7, 9, 9,
+    3, 4, 1, 3, 2, 7, 1, 0, 0, 3, 7, 8, 2, 6, 9, 3, 6, 1, 7, 3, 7, 7, 8, 9, 8, 0, 4, 4, 4, 9, 6, 8, 2, 9, 2, 7, 6, 4, 7, 5,
+    0, 9, 4, 6, 6, 4, 9, 0, 1, 7, 9, 7, 7, 5, 8, 7, 2, 0, 7, 0, 9, 6, 3, 3, 0, 2, 8, 6, 4, 1, 6, 6, 9, 2, 8, 8, 7, 9, 1, 0,
+    9, 4, 6, 5, 5, 5, 5, 4, 7, 8, 5, 1, 9, 4, 0, 4, 0, 2, 6, 3, 0, 6, 5, 7, 4, 8, 8, 6, 7, 1, 5, 0, 5, 8, 2, 0, 6, 8, 1, 9,
+    0, 8, 9, 0, 2, 0, 0, 0, 7, 0, 8, 3, 8, 3, 6, 7, 6, 2, 7, 3, 8, 5, 4, 8, 4, 5, 8, 1, 7, 7, 1, 1, 5, 3, 1, 7, 6, 4, 4, 7,
+    5, 7, 3, 0, 2, 7, 0, 0, 6, 9, 8, 5, 5, 5, 7, 1, 3, 6, 6, 9, 5, 9, 6, 2, 2, 8, 4, 2, 9, 1, 4, 8, 1, 9, 8, 6, 0, 8, 3, 4,
+    9, 3, 6, 4, 7, 5, 2, 9, 2, 7, 1, 9, 0, 7, 4, 1, 6, 8, 4, 4, 4, 3, 6, 5, 5, 1, 0, 7, 0, 4, 3, 4, 2, 7, 1, 1, 5, 5, 9, 6,
+    9, 9, 5, 0, 8, 0, 9, 3, 0, 4, 2, 8, 8, 0, 1, 7, 7, 9, 0, 4, 1, 7, 4, 4, 9, 7, 7, 9, 2>>
+ASSUME Len(OverflowDigits) = 309
+RECURSIVE GeqDigits(_, _, _)       \* 0.s >= 0.t as decimal fractions, from position i
+GeqDigits(s, t, i) ==
+  IF i > Len(s) /\ i > Len(t) THEN TRUE
+  ELSE LET a == IF i <= Len(s) THEN s[i] ELSE 0
+           b == IF i <= Len(t) THEN t[i] ELSE 0
+       IN IF a # b THEN a > b ELSE GeqDigits(s, t, i + 1)
 NumValue(n) ==
   LET mant == n.idig \o n.fdig
       lead == StripLeadingZeros(mant)
@@ -142,7 +161,7 @@ NumValue(n) ==
       e    == (IF n.eneg THEN -1 ELSE 1) * ExpVal(StripLeadingZeros(n.edig), 0)
       q    == e - Len(n.fdig) + (Len(lead) - d)
   IN IF d = 0 THEN [k |-> "zero", neg |-> n.neg]
-     ELSE IF d + q > 310 THEN [k |-> "inf", neg |-> n.neg]
+     ELSE IF d + q > 309 \/ (d + q = 309 /\ GeqDigits(s, OverflowDigits, 1)) THEN [k |-> "inf", neg |-> n.neg]
      ELSE IF d + q < -330 THEN [k |-> "zero", neg |-> n.neg]
      ELSE IF d <= 6 /\ q >= 0 /\ d + q <= 9
        THEN [k |-> "rat", neg |-> n.neg, num |-> DigitsVal(s, 0) * Pow(10, q), den |-> 1]
